@@ -119,7 +119,7 @@ ENGINES = {
         "cxxflags": ["-fno-access-control"],  # oracle N9 reads the DL theories' path trees
     },
     "io": {
-        "sources": ["sim/io/io_main.cpp"],
+        "sources": ["sim/io/io_main.cpp", "sim/core/layout.cpp"],
         "libs": ["-lsolver", "-lcore", "-lriddle", "-lsmt", "-ljson"],
     },
     "exec": {
